@@ -2,7 +2,7 @@
 import ast
 
 from vstat.loader import AnalysisError
-from vstat.terms import builder, guarded_alts, show, SELF, NONE, G, alts, walk, mentions, phi, subst, strip_none
+from vstat.terms import CMP, builder, guarded_alts, show, SELF, NONE, G, alts, walk, mentions, phi, subst, strip_none
 from vstat.guards import path_conditions
 from vstat.cfg import cfg_of
 from vstat.sigs import bind
@@ -30,17 +30,18 @@ ASSUME = ["hs, tz, s, d > 0", "normalisation, the support search (x_max shrinkin
 def run(prog, rep):
     rep.explanation = EXPL
     rep.assumptions = ASSUME
-    closed(prog, rep)
-    wiring(prog, rep)
-    given(prog, rep)
-    rng(prog, rep)
-    montecarlo(prog, rep)
+    rep.part(closed, prog, rep)
+    rep.part(wiring, prog, rep)
+    rep.part(given, prog, rep)
+    rep.part(rng, prog, rep)
+    rep.part(montecarlo, prog, rep)
     rep.expect_min("C16.mc", 6)
     rep.expect_min("C16.closed", 8)
     rep.expect_min("C16.wiring", 7)
     rep.expect_min("C16.given", 2)
     rep.expect_min("C16.rng", 3)
-
+    from .purity import row as _stateless_row
+    rep.part(_stateless_row, prog, rep, "C16", 5)
 
 def _ret_tuple(prog, q):
     fn = prog.func(q)
@@ -373,7 +374,7 @@ def montecarlo(prog, rep):
             smp = den[2][0]
         x2 = ("call", G("numpy.atleast_2d"), (("call", G("numpy.asarray_chkfinite"), (P("x"),), ()),), ())
         ev = ("sub", x2, ("tuple", (("slice", NONE, NONE, NONE), G("numpy.newaxis"), ("slice", NONE, NONE, NONE))))
-        want = ("call", ("attr", ("call", ("attr", ("cmp", "<=", smp, ev), "all"), (), (("axis", ("const", -1)),)), "sum"), (), (("axis", ("const", -1)),))
+        want = ("call", ("attr", ("call", ("attr", CMP("<=", smp, ev), "all"), (), (("axis", ("const", -1)),)), "sum"), (), (("axis", ("const", -1)),))
         ok = smp is not None and num == want and set(alts(smp)) == {P("sample"), ("attr", SELF, "sample")}
     rep.check(ok, "C16.mc", f"{q}:fraction", fn.where(rets[-1]), "sum over samples of all_d(sample_d <= x_d) / len(sample), sample = supplied or self.sample", why)
     sp = prog.func(f"{TM}.sample")
@@ -406,7 +407,7 @@ def montecarlo(prog, rep):
                 okc = len(smp) == 1 and smp[0][2][1:3] == (P("dim"), giv) and dict(smp[0][3]).get("random_state") == P("random_state")
                 if red == "cdf":
                     n_ = smp[0][2][0] if smp else None
-                    okv = okc and v == ("bin", "/", ("call", ("attr", ("cmp", "<=", smp[0], val), "sum"), (), ()), n_)
+                    okv = okc and v == ("bin", "/", ("call", ("attr", CMP("<=", smp[0], val), "sum"), (), ()), n_)
                 else:
                     okv = okc and v == ("call", G("numpy.quantile"), (smp[0], val), ())
                 ok = okv and idx == i and base == ("call", G("numpy.empty_like"), (P(first),), ())
